@@ -35,12 +35,26 @@ def n_runs(tier):
     return 150000 if tier == "quick" else 6000000
 
 
+import logging as _logging
+
+
+class FormattingSink(_logging.Handler):
+    """Behaves like a real log handler (the record IS formatted, so %r / %s arguments are rendered
+    exactly as the default stderr handler would render them) but writes nowhere."""
+
+    def emit(self, record):
+        try:
+            self.format(record)
+        except Exception:
+            pass
+
+
 def worker_init():
     import logging
 
     lg = logging.getLogger("monkeytype")
-    if not any(isinstance(h, logging.NullHandler) for h in lg.handlers):
-        lg.addHandler(logging.NullHandler())
+    if not any(isinstance(h, FormattingSink) for h in lg.handlers):
+        lg.addHandler(FormattingSink())
     lg.propagate = False
     # cyclic GC runs only between runs (never inside a simulated run): finalisers of unreachable
     # suspended generators would otherwise fire at allocation-history-dependent moments
